@@ -38,6 +38,27 @@ CLAIMED.update({
    text="Seeded histories on modules with 0-6 custom sections spliced at random boundaries (duplicate, empty, non-ASCII and near-miss names; payload lengths on LEB boundaries). After every emit the uninterpreted custom sections of the output must equal the model list; queries are compared step by step.",
    note="Trusted: the 40-line section splitter; the definition of 'interpreted' (name, producers, .debug*).",
    design_ref="DESIGN.md section 4 (C12)"),
+ "C02": dict(
+   engine="lifecycle-simulator",
+   category="exploration",
+   technique="deterministic simulation of operation histories on one Module value (GC, re-parse, 21 kinds of well-formed builder/edit API calls, custom-section adds) under a configuration swarm; oracle: emit returns without unwinding and an independent wasmparser validator accepts the bytes after every emit of every history",
+   text="The history x configuration dimension of the property only (the thinnest fit of the family): a Module carries tombstones, back-links and id maps from everything done to it, and the emit-time index map panics on any id a history left dangling. Seeded histories, minimised to the shortest operation list that still fails; nothing beyond validity is asserted.",
+   note="Trusted: wasmparser 0.214 Validator under the harness's feature constants; the edit vocabulary is contract-preserving by construction (export names unique, ref.func targets declared, back-links maintained).",
+   design_ref="DESIGN.md section 4 (C02)"),
+ "C14": dict(
+   engine="lifecycle-simulator",
+   category="exploration",
+   technique="configuration-swarm simulation: all 512 switch vectors exhaustively on fixed inputs plus seeded (input, vector, round-trip chain, injected parse failure) cases; metamorphic section-inventory equalities between switch-on and switch-off executions, a producers reference model read with an independent decoder, and an exactly-once callback counter under injected parse faults",
+   text="Per hop three executions of real parse+emit (the vector, names flipped, producers flipped) compared section by section with an independent splitter; producers content against a list model across chains of up to six round trips; on_parse counted as 1 after Ok and 0 after Err where Err is produced by the C05 storage-fault injector or by only_stable_features.",
+   note="Trusted: section splitter; wasmparser::ProducersSectionReader. DWARF: absence with the switch off; presence only for synthesised well-formed DWARF.",
+   design_ref="DESIGN.md section 4 (C14)"),
+ "C17": dict(
+   engine="lifecycle-simulator",
+   category="exploration",
+   technique="refinement checking of operation histories against a map/vector reference model: exhaustive enumeration of all sequences up to length 5 over a 9-operation alphabet, then seeded histories of up to 60 operations over 11 collections of up to 3 modules, with use-of-a-dead-id as the injected fault; invariants evaluated after every step",
+   text="Live id resolves to its own item; dead id is refused (panic or None) and the refusal changes nothing; fresh ids differ from every id ever issued (also under arena-counter burn); iteration is the live items in creation order; adding a present function type returns the existing id; finders agree with the model.",
+   note="Single-threaded by nature (the API is &mut-owned). Identity is observed through a unique fingerprint stored in each item.",
+   design_ref="DESIGN.md section 4 (C17)"),
 })
 
 NOT_APPLICABLE = {
